@@ -495,7 +495,19 @@ def extra_obligations(tier):
     spec = importlib.util.spec_from_file_location("py2coq_c16", os.path.join(core.VERIF, "tools", "py2coq_c16.py"))
     mod = importlib.util.module_from_spec(spec)
     spec.loader.exec_module(mod)
-    return mod.obligations(core.REPO, core.VERIF)
+    # the second part (tools/py2coq_c16b.py, C16/TranslatedReq.v): the request side `cookies` of baize/requests.py (split on ";",
+    # the nameless cookie, strip, the last value of a repeated name wins; http_cookies._unquote an argument, instantiated with the
+    # model's unquote) = M.parse_cookies, and BaseResponse.set_cookie / delete_cookie of baize/responses.py (the Cookie object
+    # appended to self.cookies; time.time() and datetime.fromtimestamp(., tz=utc) arguments) = M.set_cookie / M.delete_cookie,
+    # composed with the translated Cookie.__str__ into the round trip of one cookie; C16/PyLibReq.v against the interpreter
+    spec = importlib.util.spec_from_file_location("py2coq_c16b", os.path.join(core.VERIF, "tools", "py2coq_c16b.py"))
+    modb = importlib.util.module_from_spec(spec)
+    spec.loader.exec_module(modb)
+    from concurrent.futures import ThreadPoolExecutor
+    with ThreadPoolExecutor(2) as ex:
+        a = ex.submit(mod.obligations, core.REPO, core.VERIF)
+        b = ex.submit(modb.obligations, core.REPO, core.VERIF)
+        return list(a.result()) + list(b.result())
 
 
 if __name__ == "__main__":
